@@ -1544,6 +1544,7 @@ def render(res: dict[str, Any]) -> str:
     L.append("def binAttrs : List (String × List String) := [" +
              ", ".join(f'("{k}", {sl(v["bin_self_attrs"] or [])})' for k, v in js.items() if k in ok) + "]")
     L.append("")
+    L.append("def classTag : List (String × Nat) := [" + ", ".join(f'("{k}", T_{tag_of[k]})' for k in ok if k in tag_of) + "]")
     L.append("def extracted : List String := " + sl(ok))
     L.append("def handModelled : List String := " + sl(res["hand"]))
     L.append("def uncovered : List String := " + sl(sorted(res["uncovered"])))
@@ -1687,3 +1688,18 @@ def diagnose(res: dict[str, Any]) -> dict[str, str]:
             if e:
                 out[h] = e
     return out
+
+
+def count_slots(c: tuple) -> int:
+    k = c[0]
+    if k in ("int", "str", "bytes", "float", "bool", "flags", "ref", "any", "anyref"):
+        return 1
+    if k == "field":
+        return max(1, count_slots(c[2]))
+    if k == "seq":
+        return sum(count_slots(x) for x in c[1])
+    if k == "list":
+        return count_slots(c[1])
+    if k == "table":
+        return max([count_slots(x) for _, x in c[1]] + [1])
+    return 0
